@@ -210,6 +210,12 @@ func emitRecord(rc recCase) (payloads []string, pan string) {
 			catch(func() {
 				pl.LogAttrs(context.Background(), slog.WarnLevel, strings.Repeat("a prior record, ", i+1)+"\nwith a second line", pargs...)
 			})
+			if i == 3 {
+				// and a call that does not complete: one of its values panics while it is formatted (recovered by the caller)
+				catch(func() {
+					pl.LogAttrs(context.Background(), slog.WarnLevel, "a value panics", "a", 1, slog.Group("peer", "x", 1, slog.Group("in", "v", panicV{}, "w", 2)), "z", 3)
+				})
+			}
 		}
 	}
 	pan = catch(func() { l.LogAttrs(context.Background(), slog.Level(rc.Level), rc.msg(), args...) })
